@@ -7,7 +7,7 @@
    with all non-scratch mark bits unchanged when it does not. *)
 From Coq Require Import List NArith Bool Arith.
 From Verif.Common Require Import Packet PolicyRef Ipt.
-From Verif.C08 Require Import Model Spec ProofsSplit ProofsFilter Proofs ProofsChain.
+From Verif.C08 Require Import Model Spec ProofsSplit ProofsFilter Proofs ProofsChain ProofsPinned Nft ProofsNft.
 Import ListNotations.
 Open Scope N_scope.
 
@@ -100,3 +100,54 @@ Theorem c08_split_ports_membership : forall ports p,
   existsb (fun l => in_ranges l p) (split_ports ports) = in_ranges ports p.
 Proof. exact in_ranges_split. Qed.
 Print Assumptions c08_split_ports_membership.
+
+(* THE CODE AS PINNED, positively: without the scratch-bit fix (c_fixed arbitrary, in particular false) the
+   rendering is exact for every rule that needs at most two positive match blocks for the version rendered.
+   With c08_rule_exact_refuted_unfixed (whose rule needs exactly three, `witness3_block_count`) this
+   locates the defect: third and later positive blocks, nothing else. *)
+Theorem c08_rule_exact_pinned : forall c e r p fuel cs,
+  marks_ok c = true -> in_domain c r = true -> (pos_block_count (pk_ver p) r <= 2)%nat ->
+  wf_packet p -> entry_ok c (r_action r) p = true ->
+  ok_outcome c (e_sets e) r p (run (S fuel) cs e (render_rule c (pk_ver p) r) p) = true.
+Proof. exact rule_exact_pinned. Qed.
+Print Assumptions c08_rule_exact_pinned.
+
+Theorem c08_policy_rules_exact_pinned : forall c e, marks_ok c = true ->
+  forall rules p,
+    forallb (in_domain c) rules = true ->
+    forallb (fun r => Nat.leb (pos_block_count (pk_ver p) r) 2) rules = true ->
+    wf_packet p -> verdict_clear c (pk_mark p) = true ->
+    chain_outcome c (policy_verdict (e_sets e) rules p) p (run_flat e (render_rules c (pk_ver p) rules) p).
+Proof. exact policy_rules_exact_pinned. Qed.
+Print Assumptions c08_policy_rules_exact_pinned.
+
+(* NFTABLES TEXT LEVEL (Nft.v).  `nft_run` evaluates the rule text clause by clause as nft does: "tcp dport
+   {..}" / "icmp type .." carry an implicit l4proto dependency, "ip saddr .." only matches IPv4 packets,
+   marks are "mark or x" / "mark & a" / "mark & a ^ x".  For well-formed text (every implicit dependency backed by
+   an explicit "meta l4proto" clause in the same rule, address clauses of the table's family) it agrees with
+   the abstract machine on the translated rules, for every packet of that family. *)
+Theorem c08_nft_text_lowering_sound : forall e rs p,
+  forallb (nrule_wf (pk_ver p)) rs = true ->
+  nft_run e rs p = run_flat e (map lower_rule rs) p.
+Proof. exact nft_run_lower. Qed.
+Print Assumptions c08_nft_text_lowering_sound.
+
+(* hence exactness holds of the nftables text itself: any well-formed text that translates to the model's
+   rules (both are checked, inside Coq, on the real renderer's text in every correspondence case) *)
+Theorem c08_rule_exact_nft_text : forall c e r p nrs,
+  marks_ok c = true -> c_fixed c = true -> in_domain c r = true ->
+  wf_packet p -> entry_ok c (r_action r) p = true ->
+  forallb (nrule_wf (pk_ver p)) nrs = true ->
+  map lower_rule nrs = render_rule c (pk_ver p) r ->
+  ok_outcome c (e_sets e) r p (nft_run e nrs p) = true.
+Proof. exact rule_exact_nft_text. Qed.
+Print Assumptions c08_rule_exact_nft_text.
+
+Theorem c08_rule_exact_nft_text_pinned : forall c e r p nrs,
+  marks_ok c = true -> in_domain c r = true -> (pos_block_count (pk_ver p) r <= 2)%nat ->
+  wf_packet p -> entry_ok c (r_action r) p = true ->
+  forallb (nrule_wf (pk_ver p)) nrs = true ->
+  map lower_rule nrs = render_rule c (pk_ver p) r ->
+  ok_outcome c (e_sets e) r p (nft_run e nrs p) = true.
+Proof. exact rule_exact_nft_text_pinned. Qed.
+Print Assumptions c08_rule_exact_nft_text_pinned.
